@@ -5,7 +5,7 @@
      inside   the point-in-region test of a tile centre (Web-Mercator, even-odd over rings with holes). *)
 From Coq Require Import NArith ZArith List Bool Lia.
 Import ListNotations.
-From PM Require Import Model.TileId Model.Hilbert Model.Region Proofs.HilTop Proofs.Region.
+From PM Require Import Model.TileId Model.Hilbert Model.F64 Model.Region Proofs.HilTop Proofs.Region Proofs.E7Glue.
 Open Scope N_scope.
 
 (* between the first and the last boundary tile a tile off the boundary is in the filled interior exactly when its centre is
@@ -40,6 +40,37 @@ Proof. intros s minz t H. apply generalize_or_spec in H. destruct H as [k [d [_ 
 Theorem C16_parents : forall s minz k d, In d s -> (k < depth s minz)%nat -> In (parent_id (ancestor k d)) (generalize_or s minz).
 Proof. intros s minz k d Hd Hk. apply generalize_or_spec. exists (S k), d. split; [lia|]. split; [exact Hd|reflexivity]. Qed.
 
+(* header bounds: the four bound fields are the truncated E7 values of the region's bounding box - for coordinates written with k <= 7
+   decimals each is within one unit of the exact value (min / max of the coordinates times 10^(7-k)) *)
+Theorem C16_header_bounds : forall k lo0 los la0 las, (k <= 7)%nat ->
+  let lons := lo0 :: los in let lats := la0 :: las in
+  let s := (10 ^ (7 - Z.of_nat k))%Z in
+  (forall v, In v (lons ++ lats) -> (- 2^31 + 1 < v * s < 2^31 - 1)%Z) ->
+  match region_header k lons lats with
+  | [l; b; r; t; _; _] =>
+      (Z.abs (l - zmin_list lons lo0 * s) <= 1 /\ Z.abs (b - zmin_list lats la0 * s) <= 1 /\
+       Z.abs (r - zmax_list lons lo0 * s) <= 1 /\ Z.abs (t - zmax_list lats la0 * s) <= 1)%Z
+  | _ => False
+  end.
+Proof.
+  intros k lo0 los la0 las Hk lons lats s Hr. unfold region_header. cbv zeta.
+  assert (Hmin : forall l d, In d l -> In (zmin_list l d) l).
+  { intros l. unfold zmin_list. assert (G : forall l0 acc, In (fold_left Z.min l0 acc) l0 \/ fold_left Z.min l0 acc = acc).
+    { induction l0 as [|x r IH]; intro acc; cbn; [right; reflexivity|]. destruct (IH (Z.min acc x)) as [H|H]; [left; right; exact H|].
+      rewrite H. destruct (Z.min_spec acc x) as [[_ E]|[_ E]]; rewrite E; [right; reflexivity|left; left; reflexivity]. }
+    intros d Hd. destruct (G l d) as [H|H]; [exact H|rewrite H; exact Hd]. }
+  assert (Hmax : forall l d, In d l -> In (zmax_list l d) l).
+  { intros l. unfold zmax_list. assert (G : forall l0 acc, In (fold_left Z.max l0 acc) l0 \/ fold_left Z.max l0 acc = acc).
+    { induction l0 as [|x r IH]; intro acc; cbn; [right; reflexivity|]. destruct (IH (Z.max acc x)) as [H|H]; [left; right; exact H|].
+      rewrite H. destruct (Z.max_spec acc x) as [[_ E]|[_ E]]; rewrite E; [left; left; reflexivity|right; reflexivity]. }
+    intros d Hd. destruct (G l d) as [H|H]; [exact H|rewrite H; exact Hd]. }
+  repeat split; apply e7_trunc_decimal; try exact Hk; apply Hr; apply in_or_app.
+  - left. apply Hmin. left. reflexivity.
+  - right. apply Hmin. left. reflexivity.
+  - left. apply Hmax. left. reflexivity.
+  - right. apply Hmax. left. reflexivity.
+Qed.
+
 (* non-vacuity: a boundary ring around tile (2,1,1) at zoom 2 *)
 Example C16_example :
   let b := map (fun xy => zxy_to_id 2 (fst xy) (snd xy)) [(0,0);(1,0);(2,0);(2,1);(2,2);(1,2);(0,2);(0,1)] in
@@ -55,3 +86,4 @@ Print Assumptions C16_relevant_spec.
 Print Assumptions C16_cover_finest.
 Print Assumptions C16_near.
 Print Assumptions C16_parents.
+Print Assumptions C16_header_bounds.
